@@ -164,7 +164,15 @@ def opsAlias : List (String × OpFn) := [
       match op with
       | "mul" => let r := v.map (· * c); pure (r ++ r)
       | "div" => if c == 0 then throw .div0 else let r := v.map (· / c); pure (r ++ r)
-      | _ => perr "op")
+      | _ => perr "op"),
+  ("al.spinorc", do
+      -- complex scalar taken by value: every component is multiplied by the same copy
+      let k ← nat
+      let e ← listOf 2 cx
+      let extra ← if k ≥ 2 then cx else pure (⟨0, 0⟩ : Cx Rat)
+      let c : Cx Rat := if k ≥ 2 then extra else e.getD k ⟨0, 0⟩
+      let r := e.map (· * c)
+      pure (flatC r ++ flatC r))
 ]
 
 end Epsic.Driver
